@@ -373,11 +373,27 @@ def direct_oracle(cfg, rs, tier, n_tests, want_sampling=True):
     gof = want_sampling and cfg.kind == "bern" and n <= 6
     if gof:
         N = 100000 if tier == "quick" else 400000
+    # with several classes the goodness-of-fit draws come from ONE call whose label vector mixes the classes in random order
+    # (row i must follow the class y[i]); each class is then tested on its own rows
+    mixed_y = None; s_all = None
+    if gof and cfg.classes > 1:
+        mixed_y = rs.randint(0, cfg.classes, size=N * cfg.classes)
+        torch.manual_seed(cfg.seed + 3)
+        try:
+            with torch.no_grad():
+                s_all = m.sample(len(mixed_y), y=torch.tensor(mixed_y, dtype=torch.long))
+        except Exception as e:
+            return dict(what="sample raised on an accepted architecture (mixed label vector)", error=f"{type(e).__name__}: {e}"), stats
+        if tuple(s_all.shape) != (len(mixed_y), n):
+            return dict(what="sample does not return one row per label", shape=list(s_all.shape)), stats
     for cls in range(cfg.classes if gof else 1):
         torch.manual_seed(cfg.seed + 17 * cls + 1)
         try:
-            with torch.no_grad():
-                s = m.sample(N, y=torch.full((N,), cls, dtype=torch.long))
+            if s_all is not None:
+                s = s_all[torch.tensor(mixed_y == cls)]; N = int(s.shape[0])
+            else:
+                with torch.no_grad():
+                    s = m.sample(N, y=torch.full((N,), cls, dtype=torch.long))
         except Exception as e:
             return dict(what="sample raised on an accepted architecture", error=f"{type(e).__name__}: {e}"), stats
         stats["sample_rows"] += N
